@@ -398,6 +398,12 @@ def sd1(ctx, R):
             else:
                 R.violation("scaling.MultiScaling._compute_scaled_data::arity", cs.where(), "scale called with %d operands" % len(args))
             continue
+        b = match(("call", cs.qual, W("args"), W()), leaf)
+        if b is not None and b["args"] and isinstance(b["args"][0], tuple) and b["args"][0][:2] == ("attr", S) and b["args"][0][2] in ("input_source", "left_input_source", "right_input_source"):
+            R.violation("scaling.MultiScaling._compute_scaled_data::scale skipped", cs.where(), "under %s the evaluator returns the INPUT of the scale (`%s`) as the scale's output: "
+                        "the scale is not applied on that path, so values and dtype are those of its input (e.g. the raw integer type for an empty window of a "
+                        "channel that is declared float64)" % ("; ".join(show(c) for c in fc)[:120] or "some condition", show(leaf)[:80]))
+            continue
         R.undecided("scaling.MultiScaling._compute_scaled_data::result `%s`" % show(leaf)[:50], cs.where(), "result form not understood")
     for k, hit in seen.items():
         if not hit:
